@@ -17,10 +17,10 @@ def run(ctx, res):
                       "C04.num (numbers are printed through the number's Display)",
                       "C04.lockstep (sizes / index: one slot reserved / consumed per container at entry, before children, children forward; top level computes sizes from the same value and starts at 0)",
                       "C04.dispatch (Value-level dispatch per variant for printing and sizing)"]
-    C08.table_rule(ctx, res, "C04.table", also_inverse=True)
+    C08.table_rule(ctx, res, "C04.table", also_inverse=True, rfc8785=False)
     tokens_rule(ctx, res)
-    C13.emit_rule(ctx, res, "C04.order")
-    C13.lemma_rule(ctx, res, "C04.ws")
+    C13.emit_rule(ctx, res, "C04.order", mode="skeleton")
+    C13.lemma_rule(ctx, res, "C04.ws", exact=False)
     C13.lockstep_emit(ctx, res, "C04.lockstep")
     C13.lockstep_pre(ctx, res, "C04.lockstep")
     dispatch_rule(ctx, res, "C04.dispatch")
